@@ -5,6 +5,7 @@ package props
 import (
 	"bytes"
 	"fmt"
+	"math/big"
 
 	"github.com/bytemare/secp256k1"
 	"github.com/bytemare/secp256k1/zz_verif/gen"
@@ -56,6 +57,33 @@ func c04Generate(c *mon.Ctx) {
 			for _, rp := range gen.StructuredReprs(v.P.IsInf()) {
 				e := mon.MkElemCase(v, rp)
 				c.Structured(func() any { return &c04Case{E: e} })
+			}
+		}
+	}
+
+	// points whose affine y (resp. x, y^2, x^3) has a structured STORED value, and their negations: what the decoder's square
+	// root, negation and curve-equation check work on when the encoding comes back in
+	strideS := c.N(3, 1)
+
+	for ti, t := range gen.DecodeTargets() {
+		if ti%strideS != int(c.Seed%uint64(strideS)) {
+			continue
+		}
+
+		for k, f := range []func(*big.Int) (oracle.Pt, bool){gen.PointWithStoredY, gen.PointWithStoredX, gen.PointWithStoredY2, gen.PointWithStoredX3} {
+			p, ok := f(t)
+			if !ok {
+				continue
+			}
+
+			tag := []string{"steered-y", "steered-x", "steered-y2", "steered-x3"}[k]
+			reprs := gen.StructuredReprs(false)
+
+			for j, v := range []gen.PV{{P: p, Tag: tag}, {P: oracle.Neg(p), Tag: "-" + tag}} {
+				e := mon.MkElemCase(v, reprs[(ti+j+k)%len(reprs)])
+				a := mon.MkElemCase(v, gen.Repr{Kind: "affine", L: big.NewInt(1)})
+				c.Structured(func() any { return &c04Case{E: e} })
+				c.Structured(func() any { return &c04Case{E: a} })
 			}
 		}
 	}
